@@ -92,6 +92,14 @@ RegStart(rloc) == OuterStart(rloc)
 RegLen(rloc) == Size(rloc)
 (* inside: every part of the location lies in one piece of the region (a two-part region [s,L)+[0,s) is the whole ring) *)
 Inside(rloc, loc) == Contains(rloc, loc)
+(* a feature in several parts is certainly inside when the stretch from its outer start to its outer end, introns included,
+   lies in the region as one arc of the extract.  A feature whose every base is in the region but whose introns leave it
+   (or run over the cut of a whole-ring region) cannot be written on the linear extract as the stretch it is in the record:
+   the statement does not say whether it counts as "inside", so such a feature may be present or absent (sandwich) *)
+InsideF(L, rloc, loc) ==
+    /\ Contains(rloc, loc)
+    /\ \/ Len(loc.parts) = 1
+       \/ ((OuterStart(loc) - RegStart(rloc)) % L) + Cardinality(Footprint([L |-> L, circ |-> TRUE], loc)) <= Size(rloc)
 (* the same bases re-expressed on the extract: rotate by -start on the ring of the parent.  A part of a location inside
    the region lies in one piece of the region, so it moves as a whole and lands in 0..n-1; what the origin had cut
    becomes abutting parts, which CanonLoc joins.  (Persist_MC checks that this is Ring!Shift on every generated case.) *)
@@ -122,7 +130,8 @@ OCand(rec, c) == [pay |-> c.xpay, loc |-> CanonLoc(c.loc),
 Expected(rec, r) ==
     LET reg == rec.regions[r]
         rloc == reg.loc
-        inF == {f \in Rng(rec.feats) : Inside(rloc, f.loc)}
+        inF == {f \in Rng(rec.feats) : InsideF(rec.L, rloc, f.loc)}
+        mayF == {f \in Rng(rec.feats) : Inside(rloc, f.loc)} \ inF
         inP == {p \in Rng(rec.protos) : Inside(rloc, p.loc)}
         inS == {x \in Rng(rec.subs) : Inside(rloc, x.loc)}
         inC == {c \in Rng(rec.cands) : Inside(rloc, c.loc)}
@@ -130,6 +139,8 @@ Expected(rec, r) ==
          feats |-> {XFeat(rec.L, rloc, f, FALSE) : f \in inF},
          featsDna |-> {XFeat(rec.L, rloc, f, TRUE) : f \in inF},
          nfeats |-> Cardinality(inF),
+         mayFeats |-> {XFeat(rec.L, rloc, f, FALSE) : f \in mayF}, mayFeatsDna |-> {XFeat(rec.L, rloc, f, TRUE) : f \in mayF},
+         nmay |-> Cardinality(mayF),
          protos |-> {XProto(rec.L, rloc, p) : p \in inP}, nprotos |-> Cardinality(inP),
          subs |-> {XSub(rec.L, rloc, x) : x \in inS}, nsubs |-> Cardinality(inS),
          cands |-> {XCand(rec, rloc, c) : c \in inC}, ncands |-> Cardinality(inC),
@@ -156,8 +167,12 @@ ExtractFailed(parent, pseq, r, ex) ==
     IN  FileNumbersFailed(ex.raw)
         \cup (IF ex.seq # ExtractSeq(pseq, rloc) THEN {"sequence_is_the_region_sequence"} ELSE {})
         \cup (IF ~(want.feats \subseteq {OFeat(f, FALSE) : f \in Rng(got.feats)}) THEN {"every_feature_inside_is_present_covering_the_same_bases"} ELSE {})
-        \cup (IF ~({OFeat(f, FALSE) : f \in Rng(got.feats)} \subseteq want.feats) \/ Len(got.feats) # want.nfeats THEN {"nothing_but_the_features_inside"} ELSE {})
-        \cup (IF want.feats = {OFeat(f, FALSE) : f \in Rng(got.feats)} /\ want.featsDna # {OFeat(f, TRUE) : f \in Rng(got.feats)}
+        \cup (IF ~({OFeat(f, FALSE) : f \in Rng(got.feats)} \subseteq want.feats \cup want.mayFeats)
+                 \/ Len(got.feats) < want.nfeats \/ Len(got.feats) > want.nfeats + want.nmay THEN {"nothing_but_the_features_inside"} ELSE {})
+        \cup (IF /\ want.feats \subseteq {OFeat(f, FALSE) : f \in Rng(got.feats)}
+                 /\ {OFeat(f, FALSE) : f \in Rng(got.feats)} \subseteq want.feats \cup want.mayFeats
+                 /\ ~(/\ want.featsDna \subseteq {OFeat(f, TRUE) : f \in Rng(got.feats)}
+                      /\ {OFeat(f, TRUE) : f \in Rng(got.feats)} \subseteq want.featsDna \cup want.mayFeatsDna)
               THEN {"shifted_features_read_the_same_bases"} ELSE {})
         \cup (IF Len(got.protos) # want.nprotos \/ {OProto(p) : p \in Rng(got.protos)} # want.protos THEN {"protoclusters_and_core_locations_shifted"} ELSE {})
         \cup (IF Len(got.subs) # want.nsubs \/ {OSub(x) : x \in Rng(got.subs)} # want.subs THEN {"subregions_shifted"} ELSE {})
@@ -221,7 +236,7 @@ ModelExtract(rec, r, sign) ==
         keepP == SelectSeq(rec.protos, LAMBDA p : Inside(rloc, p.loc))
         keepS == SelectSeq(rec.subs, LAMBDA x : Inside(rloc, x.loc))
         keepC == SelectSeq(rec.cands, LAMBDA c : Inside(rloc, c.loc))
-        keepF == SelectSeq(rec.feats, LAMBDA f : Inside(rloc, f.loc))
+        keepF == SelectSeq(rec.feats, LAMBDA f : InsideF(rec.L, rloc, f.loc))
         newP(old) == CHOOSE i \in DOMAIN keepP : keepP[i].num = old
         newS(old) == CHOOSE i \in DOMAIN keepS : keepS[i].num = old
         newC(old) == CHOOSE i \in DOMAIN keepC : keepC[i].num = old
@@ -246,7 +261,7 @@ ExtractWellFormed(e) ==
 BasesPreserved(rec, r, e) ==
     LET s == RegStart(rec.regions[r].loc)
         back(loc) == {(x + s) % rec.L : x \in Bases(loc)}
-    IN  /\ {back(f.loc) : f \in Rng(e.feats)} = {Bases(f.loc) : f \in {f \in Rng(rec.feats) : Inside(rec.regions[r].loc, f.loc)}}
+    IN  /\ {back(f.loc) : f \in Rng(e.feats)} = {Bases(f.loc) : f \in {f \in Rng(rec.feats) : InsideF(rec.L, rec.regions[r].loc, f.loc)}}
         /\ {<<back(p.loc), back(p.core)>> : p \in Rng(e.protos)}
              = {<<Bases(p.loc), Bases(p.core)>> : p \in {p \in Rng(rec.protos) : Inside(rec.regions[r].loc, p.loc)}}
         /\ \A f \in Rng(e.feats) : Size(f.loc) = Cardinality(back(f.loc))
@@ -254,7 +269,7 @@ BasesPreserved(rec, r, e) ==
 MoveIsRingShift(rec, r) ==
     LET rloc == rec.regions[r].loc
         R == [L |-> rec.L, circ |-> TRUE]
-        locs == {f.loc : f \in {f \in Rng(rec.feats) : Inside(rloc, f.loc)}} \cup {p.loc : p \in {p \in Rng(rec.protos) : Inside(rloc, p.loc)}}
+        locs == {f.loc : f \in {f \in Rng(rec.feats) : InsideF(rec.L, rloc, f.loc)}} \cup {p.loc : p \in {p \in Rng(rec.protos) : Inside(rloc, p.loc)}}
                 \cup {p.core : p \in {p \in Rng(rec.protos) : Inside(rloc, p.loc)}} \cup {c.loc : c \in {c \in Rng(rec.cands) : Inside(rloc, c.loc)}}
     IN  \A loc \in locs : Size(loc) = rec.L \/ CanonLoc(ShiftIn(rec.L, rloc, loc)) = CanonLoc(Shift(R, loc, 0 - RegStart(rloc)))
 (* the areas of the extract form one connected component, i.e. rebuilding regions on it gives exactly one *)
